@@ -35,11 +35,11 @@ Definition ev_leaky : env :=
   {| log_client_ip := false; err_of := fun _ => Some e_unreach; digest_of := fun _ => [7]; const_of := fun _ => [8] |}.
 
 Definition site_sanitised : site :=
-  {| s_file := 1; s_line := 228; s_level := Error; s_args := [AConst; ASanitised Conns]; s_known := false |}.
+  {| s_file := 1; s_line := 228; s_level := Error; s_args := [AConst; ASanitised Conns] |}.
 Definition site_raw : site :=
-  {| s_file := 1; s_line := 192; s_level := Error; s_args := [AConst; ARawErr]; s_known := false |}.
+  {| s_file := 1; s_line := 192; s_level := Error; s_args := [AConst; ARawErr] |}.
 Definition site_raw_debug : site :=
-  {| s_file := 1; s_line := 192; s_level := Debug; s_args := [AConst; ARawErr]; s_known := false |}.
+  {| s_file := 1; s_line := 192; s_level := Debug; s_args := [AConst; ARawErr] |}.
 
 Example safe_site_applies : safe_site site_sanitised = true /\ has_addr (output default_level site_sanitised ev_leaky) = false
   /\ output default_level site_sanitised ev_leaky <> [].
